@@ -12,6 +12,10 @@ and is younger than the threshold."
 Instants are unbounded integers (ns); `Time.Sub` saturates (stdlib contract); durations are
 int64. The theorems hold for every int64 threshold except the single value -2^63 (there the
 saturated `Since` can no longer distinguish "older than the threshold"; stated as a hypothesis).
+The wait equals the capped longest remaining time for every threshold ≥ 0 (`C21_synced_to_emit`)
+and for every negative threshold whose stamps lie at most 2^63 ns ahead of `now`
+(`C21_wait_any_threshold`); in the remaining corner it is only bounded, and differs by a few ns
+(`C21_far_future_negative_threshold_witness`).
 All comparisons and the `remaining` arithmetic are regenerated from the source (`Gen.Doublesign`).
 -/
 namespace C21
@@ -166,5 +170,63 @@ theorem C21_repaired_saturates : remaining 1 minDur = maxDur := by decide
 example : (syncedToEmit ⟨1, 100, 0, 90, 90, 90, 90, 90⟩ 10).2 = none := by decide
 example : syncedToEmit ⟨1, 100, 0, 95, 90, 90, 90, 90⟩ 10 = (5, some .justConnected) := by decide
 example : detectParallel ⟨1, 100, 50, 0, 0, 0, 95, 0⟩ 10 = true := by decide
+
+/-! ### negative thresholds -/
+
+
+/-- the capped true remaining time also for negative thresholds, as long as the stamp is not more
+    than 2^63 ns (292 years) ahead of `now` (there `Since` saturates and the code reaches the cap a
+    few ns early) -/
+theorem remaining_spec_near (s : Status) (t thr : Int) (h1 : minDur < thr) (h2 : thr ≤ maxDur)
+    (hn : minDur ≤ s.now - t) (hr : s.since t < thr) : remaining thr (s.since t) = rem s thr t := by
+  unfold Status.since at *
+  rcases sub_cases s.now t with ⟨h, e⟩ | ⟨h, e⟩ | ⟨h, h', e⟩ <;> rw [e] at hr ⊢
+  · omega
+  · unfold maxDur at *; omega
+  · rw [(remaining_val thr _ h1 h2 h h' hr).1]; rfl
+
+theorem stepM_wait_near (s : Status) (thr t : Int) (e : Err) (m : Int × Option Err)
+    (h1 : minDur < thr) (h2 : thr ≤ maxDur) (hm : Inv m) (hn : minDur ≤ s.now - t) :
+    (stepM s thr t e m).1 = max m.1 (rem s thr t) := by
+  unfold stepM
+  by_cases hr : s.since t < thr
+  · simp only [hr, decide_true, if_true, apply, Gen.Doublesign.applyCond]
+    rw [remaining_spec_near s t thr h1 h2 hn hr]
+    by_cases hc : m.1 < rem s thr t
+    · simp only [hc, decide_true, if_true]; omega
+    · simp only [hc, decide_false, Bool.false_eq_true, if_false]; omega
+  · simp only [hr, decide_false, Bool.false_eq_true, if_false]
+    have hge : ¬ s.now - t < thr := fun h => hr ((since_ge_iff s t thr h1 h2).2 h)
+    have := hm.1
+    unfold rem maxDur; omega
+
+/-- C21, wait clause for EVERY int64 threshold above -2^63 (negative ones included): if no stamp
+    lies more than 2^63 ns ahead of `now`, the wait is the longest remaining time capped at
+    2^63-1. Together with `C21_synced_to_emit` this leaves open only negative thresholds combined
+    with a stamp more than 292 years in the future. -/
+theorem C21_wait_any_threshold (s : Status) (thr : Int) (h1 : minDur < thr) (h2 : thr ≤ maxDur)
+    (hp : s.peersNum ≠ 0) (hs : s.p2pSynced ≠ 0) (hn : ∀ t ∈ stamps s, minDur ≤ s.now - t) :
+    (syncedToEmit s thr).1 = longest s thr := by
+  rw [syncedToEmit_eq s thr hp hs]
+  have i0 : Inv ((0 : Int), (none : Option Err)) := ⟨by simp, by simp⟩
+  simp only [stamps, List.mem_cons, List.not_mem_nil, or_false, forall_eq_or_imp, forall_eq] at hn
+  obtain ⟨n1, n2, n3, n4, n5⟩ := hn
+  obtain ⟨i1, -, -, -⟩ := stepM_spec s thr s.extDetected .selfEventsOngoing _ h1 h2 i0
+  obtain ⟨i2, -, -, -⟩ := stepM_spec s thr s.extCreated .selfEventsOngoing _ h1 h2 i1
+  obtain ⟨i3, -, -, -⟩ := stepM_spec s thr s.becameValidator .justBecameValidator _ h1 h2 i2
+  obtain ⟨i4, -, -, -⟩ := stepM_spec s thr s.lastConnected .justConnected _ h1 h2 i3
+  rw [stepM_wait_near s thr _ _ _ h1 h2 i4 n5, stepM_wait_near s thr _ _ _ h1 h2 i3 n4,
+    stepM_wait_near s thr _ _ _ h1 h2 i2 n3, stepM_wait_near s thr _ _ _ h1 h2 i1 n2,
+    stepM_wait_near s thr _ _ _ h1 h2 i0 n1]; rfl
+
+/-- the excluded corner is real (and harmless): threshold -10 with a stamp 2^63+5 ns ahead of
+    `now`: the saturated `Since` makes the code report 2^63-10 where the true remaining time
+    is 2^63-5; emission is refused in both -/
+theorem C21_far_future_negative_threshold_witness :
+    syncedToEmit ⟨1, 0, 0, 9223372036854775813, 1, 1, 1, 1⟩ (-10) = (maxDur - 9, some .justConnected) ∧
+    longest ⟨1, 0, 0, 9223372036854775813, 1, 1, 1, 1⟩ (-10) = maxDur - 4 := by decide
+
+example : syncedToEmit ⟨1, 100, 0, 103, 120, 120, 120, 120⟩ (-10) = (10, some .selfEventsOngoing) := by decide
+example : (∀ t ∈ stamps ⟨1, 100, 0, 103, 120, 120, 120, 120⟩, minDur ≤ (100:Int) - t) := by decide
 
 end C21
